@@ -6,12 +6,19 @@ EXTENDS GraphSLAM, SequencesExt
 VARIABLES cfg
 allvars == <<vars, cfg>>
 
-Decoy == [id |-> 99, kind |-> "SE2", fixed |-> FALSE, pose |-> "p"]
+\* id schemes: "tens": endpoints 10, 20, 30 and a decoy 99;  "dense": ids 0..N-1 with a decoy first (0) and last (N-1) and the endpoints
+\* in between (in the order given by perm), i.e. a zero-based contiguous id range whose interior may be out of order
+EId(c, j) == IF c.ids = "dense" THEN j ELSE 10 * j
+MkV(i, k) == [id |-> i, kind |-> k, fixed |-> FALSE, pose |-> "p"]
 VList(c) ==
-  LET all == [j \in 1..(c.nv + 1) |-> IF j <= c.nv THEN [id |-> 10 * j, kind |-> c.kinds[j], fixed |-> FALSE, pose |-> "p"] ELSE Decoy]
-      kept == SelectSeq(all, LAMBDA v : v.id = 99 \/ c.present[v.id \div 10])
-  IN IF c.perm = "rev" THEN Reverse(kept) ELSE kept
-EList(c) == << [cls |-> c.cls, vids |-> [j \in 1..c.nv |-> 10 * j], est |-> c.est, off |-> c.off, info |-> c.info, valid |-> TRUE, num |-> "n"] >>
+  LET ends == [j \in 1..c.nv |-> MkV(EId(c, j), c.kinds[j])]
+      kept == SelectSeq(ends, LAMBDA v : c.present[IF c.ids = "dense" THEN v.id ELSE v.id \div 10])
+      mid == IF c.perm = "rev" THEN Reverse(kept) ELSE kept
+  IN IF c.ids = "dense" THEN <<MkV(0, "SE2")>> \o mid \o <<MkV(c.nv + 1, "R2")>>
+     ELSE IF c.perm = "rev" THEN <<MkV(99, "SE2")>> \o mid ELSE mid \o <<MkV(99, "SE2")>>
+\* dup = "none": the edge names nv different vertices; dup = "last": it names nv vertices but the last id repeats the first one
+EVids(c) == [j \in 1..c.nv |-> IF c.dup = "last" /\ j = c.nv /\ c.nv > 1 THEN EId(c, 1) ELSE EId(c, j)]
+EList(c) == << [cls |-> c.cls, vids |-> EVids(c), est |-> c.est, off |-> c.off, info |-> c.info, valid |-> TRUE, num |-> "n"] >>
 
 MCNext == Construct(VList(cfg), EList(cfg)) /\ cfg' = cfg
 
@@ -26,7 +33,10 @@ InitCfg(clss, nvs, ests, offs, infos, presents(_), perms) ==
   \E cl \in clss, n \in nvs, es \in ests, of \in offs, inf \in infos, pm \in perms :
     \E ks \in KindTuples(n), pr \in presents(n) :
       /\ (cl = "odo" => of = "none")
-      /\ cfg = [cls |-> cl, nv |-> n, kinds |-> ks, est |-> es, off |-> of, info |-> inf, present |-> pr, perm |-> pm]
+      /\ \E sch \in {"tens", "dense"}, dp \in {"none", "last"} :
+           /\ (dp = "last" => n = 3 /\ pr = AllPresent(n))                 \* (an edge naming one vertex twice among TWO ids is outside the domain, R7)
+           /\ (sch = "dense" => pr = AllPresent(n))
+           /\ cfg = [cls |-> cl, nv |-> n, kinds |-> ks, est |-> es, off |-> of, info |-> inf, present |-> pr, perm |-> pm, ids |-> sch, dup |-> dp]
 AnyPresent(n) == [1..n -> BOOLEAN]
 OneAbsent(n) == { AllPresent(n) } \cup { [j \in 1..n |-> j # a] : a \in 1..n }
 \* the typing verdict does not depend on the order of the vertex list (bind by id)
